@@ -49,7 +49,7 @@ func main() {
 		select {
 		case run := <-done:
 			enc.Encode(out{ID: r.ID, Status: run.Status, Panic: run.Panic, Site: run.Site, Label: run.Label, Obs: run.Obs, Fails: run.Fails, Reach: run.Reach})
-		case <-time.After(5 * time.Second):
+		case <-time.After(1500 * time.Millisecond):
 			enc.Encode(out{ID: r.ID, Status: "HANG"})
 			w.Flush()
 			os.Exit(3)
